@@ -154,6 +154,7 @@ type Unit struct {
 	inputConst    string
 	inputKind     string
 	ghosts        map[string]types.Object
+	ghostTy       map[string]types.Type
 	heapSorts     map[string]Sort
 	preHeaps      map[string]Sort
 	setupDone     bool
@@ -1089,7 +1090,7 @@ func (u *Unit) scanLoop(nodes ...ast.Node) loopInfo {
 				li.modVars = append(li.modVars, obj)
 			}
 		case *ast.SelectorExpr:
-			// field of a local struct variable => variable modified; field of pointer => heap
+			// field of a local struct variable => variable modified; field of pointer => that field's heap
 			if id, ok := unparen(l.X).(*ast.Ident); ok {
 				obj := u.Info.Uses[id]
 				if obj != nil {
@@ -1102,7 +1103,27 @@ func (u *Unit) scanLoop(nodes ...ast.Node) loopInfo {
 					}
 				}
 			}
+			if sel := u.Info.Selections[l]; sel != nil && sel.Kind() == types.FieldVal && len(sel.Index()) == 1 {
+				if pt, ok := types.Unalias(u.Info.TypeOf(l.X)).Underlying().(*types.Pointer); ok {
+					if si := u.maybeStruct(pt.Elem()); si != nil {
+						li.heaps[fieldHeapName(si, l.Sel.Name)] = true
+						return
+					}
+				}
+			}
 			li.heapAll = true
+		case *ast.IndexExpr:
+			switch xt := types.Unalias(u.Info.TypeOf(l.X)).Underlying().(type) {
+			case *types.Slice:
+				li.heaps[sliceHeapName(u.sortOf(xt.Elem()))] = true
+			case *types.Map:
+				ks, vs := u.sortOf(xt.Key()), u.sortOf(xt.Elem())
+				li.heaps[mapDomName(ks, vs)] = true
+				li.heaps[mapValName(ks, vs)] = true
+				li.heaps[mapLenName] = true
+			default:
+				li.heapAll = true
+			}
 		default:
 			li.heapAll = true
 		}
@@ -1127,8 +1148,12 @@ func (u *Unit) scanLoop(nodes ...ast.Node) loopInfo {
 					addVar(s.Value)
 				}
 			case *ast.CallExpr:
-				// any call may write heaps (conservative), except conversions and pure builtins
-				if !u.isPureCallSyntactic(s) {
+				// any call may write heaps (conservative), except conversions, pure builtins and modelled library calls
+				if hs, ok := u.callHeapEffect(s); ok {
+					for _, h := range hs {
+						li.heaps[h] = true
+					}
+				} else if !u.isPureCallSyntactic(s) {
 					li.heapAll = true
 				}
 			case *ast.SendStmt, *ast.GoStmt:
@@ -1138,6 +1163,36 @@ func (u *Unit) scanLoop(nodes ...ast.Node) loopInfo {
 		})
 	}
 	return li
+}
+
+// heaps a call writes, when that is known precisely: append/delete builtins and heap-neutral library calls
+func (u *Unit) callHeapEffect(c *ast.CallExpr) ([]string, bool) {
+	if id, ok := unparen(c.Fun).(*ast.Ident); ok {
+		if b, ok := u.Info.Uses[id].(*types.Builtin); ok {
+			switch b.Name() {
+			case "append":
+				if st, ok := types.Unalias(u.Info.TypeOf(c)).Underlying().(*types.Slice); ok {
+					return []string{sliceHeapName(u.sortOf(st.Elem()))}, true
+				}
+			case "delete":
+				if mt, ok := types.Unalias(u.Info.TypeOf(c.Args[0])).Underlying().(*types.Map); ok {
+					ks, vs := u.sortOf(mt.Key()), u.sortOf(mt.Elem())
+					return []string{mapDomName(ks, vs), mapLenName}, true
+				}
+			}
+			return nil, false
+		}
+	}
+	if fn := calleeObj(u, unparen(c.Fun)); fn != nil && fn.Pkg() != nil {
+		switch fn.Pkg().Path() {
+		case "sync", "sync/atomic", "reflect", "fmt", "strconv", "math", "strings", "time", "errors", "regexp":
+			if recvTypeName(fn) == "AtomBool" {
+				return nil, false
+			}
+			return nil, true
+		}
+	}
+	return nil, false
 }
 
 func (u *Unit) isPureCallSyntactic(c *ast.CallExpr) bool {
@@ -1184,6 +1239,8 @@ func (u *Unit) havocLoop(env *Env, li loopInfo) {
 	}
 	if li.heapAll {
 		u.havocHeaps(env, nil)
+	} else if len(li.heaps) > 0 {
+		u.havocHeaps(env, li.heaps)
 	}
 	nc := u.D.Fresh("clk", SInt)
 	env.assume(le(env.clock, nc))
@@ -1250,7 +1307,7 @@ func (u *Unit) frameAxiom(env *Env, name string, nh Term) {
 	}
 	r := u.D.Bound("r", SRef)
 	guard := le(u.birth(r), IntLit(0))
-	for _, m := range u.modifiesRefs[name] {
+	for _, m := range modsFor(u.modifiesRefs, name) {
 		guard = And(guard, Not(Same(r, m)))
 	}
 	env.assume(Forall([]Term{r}, Imp(guard, Same(Select(nh, r), Select(h0, r))), []Term{Select(nh, r)}))
@@ -1291,6 +1348,23 @@ func (u *Unit) assumeInvariants(env *Env, blk *Block) {
 	}
 }
 
+// vacuity probe: the loop body must be reachable under the invariants (a contradictory invariant would make
+// every inv-keep obligation pass); "unsat" fails the probe, sat/unknown pass
+func (u *Unit) coverProbe(env *Env, name string, pos token.Pos, what string) {
+	if u.muteObs || u.inClosure > 0 {
+		return
+	}
+	full := u.Name + "/" + name + u.Suffix
+	ob := u.obIdx[full]
+	if ob == nil {
+		ob = &Obligation{Name: full, Kind: "cover", Func: u.FI.Key, Pos: u.pos(pos), Expr: what, Decls: u.D, Expect: "sat-any"}
+		u.obIdx[full] = ob
+		u.Obs = append(u.Obs, ob)
+	}
+	// one query per symbolic path that reaches the point; the probe passes if at least one of them is satisfiable
+	ob.Queries = append(ob.Queries, Query{Path: u.pos(pos), Pre: append([]Term(nil), env.pc...), Goal: True})
+}
+
 func (u *Unit) loopName(s ast.Stmt) string {
 	n := u.loopOrdinal(s)
 	owner := u.curFn[len(u.curFn)-1]
@@ -1313,6 +1387,7 @@ func (u *Unit) execFor(st *ast.ForStmt, env *Env, label string) []Outcome {
 	if blk == nil {
 		u.note(fmt.Sprintf("loop %s of %s has no invariant block (treated as invariant true)", lname, u.curFn[len(u.curFn)-1].Key))
 	}
+	u.runGhostKind(env, blk, "ghostbefore")
 	u.checkInvariants(env, blk, "inv-init", st.Pos(), lname)
 	li := u.scanLoop(st.Body, st.Post, st.Cond)
 	li.modVars = append(li.modVars, u.ghostsSetIn(st)...)
@@ -1329,6 +1404,9 @@ func (u *Unit) execFor(st *ast.ForStmt, env *Env, label string) []Outcome {
 		if !br.truth {
 			res = append(res, Outcome{env: br.env, kind: oNext})
 			continue
+		}
+		if blk != nil {
+			u.coverProbe(br.env, lname+"/cover/body-reachable", st.Pos(), "loop body reachable under the invariants")
 		}
 		for _, o := range u.execBlock(st.Body.List, br.env) {
 			switch {
@@ -1392,6 +1470,7 @@ func (u *Unit) execRangeSlice(st *ast.RangeStmt, env *Env, label string, x Value
 	if kobj != nil {
 		env.alias[kobj.Name()] = IntLit(0)
 	}
+	u.runGhostKind(env, blk, "ghostbefore")
 	u.checkInvariants(env, blk, "inv-init", st.Pos(), lname)
 	li := u.scanLoop(st.Body)
 	li.modVars = append(li.modVars, u.ghostsSetIn(st)...)
@@ -1421,6 +1500,9 @@ func (u *Unit) execRangeSlice(st *ast.RangeStmt, env *Env, label string, x Value
 	if kobj != nil {
 		delete(be.alias, kobj.Name())
 		be.vars[kobj] = u.fromInt(k, kobj.Type())
+	}
+	if blk != nil {
+		u.coverProbe(be, lname+"/cover/body-reachable", st.Pos(), "loop body reachable under the invariants")
 	}
 	if vobj != nil {
 		elem := u.sliceGet(be, x.Term, es, k)
@@ -1502,6 +1584,9 @@ func (u *Unit) execRangeMap(st *ast.RangeStmt, env *Env, label string, x Value, 
 		u.checkInvariants(skip, blk, "inv-keep", st.Pos(), lname)
 	}
 	be.assume(Select(domNow, key))
+	if blk != nil {
+		u.coverProbe(be, lname+"/cover/body-reachable", st.Pos(), "loop body reachable under the invariants")
+	}
 	delete(be.alias, "_i")
 	if kobj != nil {
 		be.vars[kobj] = key
